@@ -36,6 +36,12 @@ def plan(ctx, walks_quick=14, walks_thorough=160, walk_len=45):
         for ci, conf in enumerate(confs if name in ('handshake', 'rekey_child', 'rekey_ike', 'new_child') or
                                   not ctx.quick() else confs[:1]):
             runs.append((f'{name}/conf{ci}', conf, scripted(name)))
+    # histories that need something specific: SPI collisions (the kernel refuses the duplicate), a CHILD_SA with PFS
+    # and an INVALID_KE_PAYLOAD retry after a postponed IKE_SA rekey, an IKE SPI chosen by the peer that equals a local one
+    for name in scenarios.SPECIAL:
+        runs.append((f'{name}/conf0', {}, scripted(name)))
+    runs.append(('postponed_rekey_then_child/pfs', {'child_dh': ('15', '14'), 'child_dh_b': ('14',)},
+                 scripted('postponed_rekey_then_child')))
     n = walks_quick if ctx.quick() else walks_thorough
     for k in range(n):
         rng = random.Random(ctx.rng.getrandbits(48))
